@@ -139,6 +139,12 @@ def items(tier):
         for W in ((2, 3, 4, 8) if tier == 'thorough' else ((2, 2, 3, 2, 4, 2, 8)[pi % 7],)):
             out.append((i, pi, W, inputs if tier == 'thorough' else inputs[(pi % 2)::2] + (inputs[:1] if pi % 2 else [])))
             i += 1
+    # family LENL: a dynamic array as long as a much longer array of narrower elements (only length x element size wraps)
+    from ..gen import chain
+    for W in (2, 3):
+        for k in range(len(chain.lenl_programs(W))):
+            out.append((i, 'LENL', W, [k]))
+            i += 1
     return out
 
 
@@ -150,8 +156,22 @@ def run_item(item, tier):
     if _PROGS is None:
         _PROGS = programs()
     idx, pi, W, inputs = item
-    key, src = _PROGS[pi]
     st = Stats()
+    if pi == 'LENL':
+        from ..gen import chain
+        from .c05 import _must_overflow
+        sizes = [5, 33, 64, 500] if tier == 'quick' else list(range(1, 70, 4)) + [100, 500, 501, 1000]
+        for tag, src in [chain.lenl_programs(W)[inputs[0]]]:
+            prog = parse_program(src)
+            for S in sizes:
+                for i_ in ((3, S - 1) if tier == 'quick' else (0, 3, S - 5, S - 1, S)):
+                    _must_overflow(st, src, prog, i_, W, S, f'LENL[{tag}] S={S} i={i_}', early_ok=True)
+                    st.add('overflow_runs')
+            st.add('cases')
+        st.count('family_items', 'LENL')
+        st.sample({'family': 'LENL', 'W': W, 'program': chain.lenl_programs(W)[inputs[0]][0], 'stack_sizes': sizes})
+        return st
+    key, src = _PROGS[pi]
     prog = parse_program(src)
     seen = set()
     for n, i in inputs:
@@ -170,6 +190,8 @@ def coverage(total, tier):
         'M': f'{len(programs())} programs = scalar frames (0,1,3 scalars) x arrays (none; literal and VLA of int/byte/bool/string; literals whose '
              'elements are calls) x actions (indexed store/read, compound store, by-reference callee, callee with its own array, every '
              'write overload, write of the most negative integer as the deepest call, recursion, try/stop with defeat two calls deep, nested literal with call elements)',
+        'LENL': 'dynamic int/string arrays whose length is the .length of a bool/byte global just long enough for length x element size to wrap the word (W=3; W=2 controls; directly, through a parameter, '
+                'plus a zero global, through a local) at stack sizes 1..69 by 4, 100, 500, 501, 1000 words (quick: 5, 33, 64, 500) with stores near the end of the stack: always a clean stack_overflow, no monitor alarm',
         'quick_thinning': 'the actions rec/trystop/nestlit/twolit/writemin/incr/writearr are not combined with the three-scalar frame variant in the quick tier',
         'inputs': '(length n, index i) pairs incl. negative, zero, last, one past, far out of range: ' + str(INPUTS_T if tier == 'thorough' else INPUTS_Q),
         'stack_sizes': 'every size from 1 word up to S_min+8, plus 256 and 1024 words',
@@ -192,4 +214,7 @@ def vacuity(total, tier):
 
 
 def replay(case):
+    if case.get('kind') == 'overflow':
+        from .c05 import replay as r5
+        return r5(case)
     return replay_sweep(case)
